@@ -9,6 +9,7 @@ DST=/verif/seeded/$ID
 mkdir -p $DST
 cp $SRC/patch.diff $SRC/meta.json $DST/ 2>/dev/null
 cp $SRC/demo_test.go $DST/demo_test.go.txt
+RUNRE=$(grep -o 'func Test[A-Za-z0-9_]*' $SRC/demo_test.go | sed 's/func //' | paste -sd'|')
 PKG=$(python3 -c "import json;print(json.load(open('$SRC/meta.json')).get('demo_package','syntax'))")
 WT=/tmp/sv-$ID
 git -C /repo worktree remove --force $WT 2>/dev/null
@@ -19,9 +20,9 @@ if ! git -C $WT apply --3way $DST/patch.diff >>$LOG 2>&1; then echo "PATCH DOES 
 /verif/tools/baseline.sh $WT >>$LOG 2>&1; SUITE=$?
 echo "suite_with_change_rc=$SUITE" | tee -a $LOG
 cp $SRC/demo_test.go $WT/$PKG/zz_seeded_demo_test.go
-(cd $WT && go test -vet=off -count=1 ./$PKG/ -run 'Seeded|seeded|Demo|demo' ) >>$LOG 2>&1; WITH=$?
+(cd $WT && go test -vet=off -count=1 ./$PKG/ -run "^($RUNRE)\$" ) >>$LOG 2>&1; WITH=$?
 git -C $WT apply -R $DST/patch.diff >>$LOG 2>&1   # removes the change, keeps the untracked demo
-(cd $WT && go test -vet=off -count=1 ./$PKG/ -run 'Seeded|seeded|Demo|demo' ) >>$LOG 2>&1; WITHOUT=$?
+(cd $WT && go test -vet=off -count=1 ./$PKG/ -run "^($RUNRE)\$" ) >>$LOG 2>&1; WITHOUT=$?
 echo "demo_with_change_rc=$WITH demo_without_change_rc=$WITHOUT" | tee -a $LOG
 git -C /repo worktree remove --force $WT
 if [ $SUITE -ne 0 ] || [ $WITH -eq 0 ] || [ $WITHOUT -ne 0 ]; then echo "NOT CONFIRMED" | tee -a $LOG; exit 4; fi
